@@ -70,12 +70,6 @@ Qed.
 Lemma allpins_app (l l' : list (lst K)) : allpins (l ++ l') = allpins l ++ allpins l'.
 Proof. unfold allpins. rewrite map_app, concat_app. reflexivity. Qed.
 
-Lemma allpins_In (live : list (lst K)) L p : In L live -> In p (l_pins L) -> In p (allpins live).
-Proof.
-  intros HL Hp. unfold allpins. apply in_concat. exists (l_pins L). split; [|exact Hp].
-  apply in_map. exact HL.
-Qed.
-
 (* ---- Sem depends only on the waves at the structure's pins ---- *)
 Lemma Sem_ext (L : lst K) a b a' b' :
   (forall p, In p (l_pins L) -> a' p == a p /\ b' p == b p) -> Sem L a b -> Sem L a' b'.
@@ -239,10 +233,6 @@ Proof.
   split; [apply two_removed_perm; assumption|]. split; [exact HC|reflexivity].
 Qed.
 
-Lemma join_pins cs (A B C : lst K) : join cs A B = Ok C ->
-  l_pins C = keep (map fst (links cs A B)) (l_pins A) ++ keep (map snd (links cs A B)) (l_pins B).
-Proof. intros H. apply join_inv in H. cbv zeta in H. destruct H as (_ & _ & P & _ & ->). reflexivity. Qed.
-
 Lemma links_partner_some cs (A B : lst K) p :
   In p (map fst (links cs A B)) \/ In p (map snd (links cs A B)) -> partner cs p <> None.
 Proof.
@@ -267,7 +257,7 @@ Proof.
   set (xs := map fst (links cs A B)). set (ys := map snd (links cs A B)).
   assert (Hall : allpins (rest ++ [C]) = allpins rest ++ (keep xs (l_pins A) ++ keep ys (l_pins B))).
   { rewrite allpins_app. f_equal. unfold allpins; simpl. rewrite app_nil_r.
-    apply (join_pins _ _ _ _ HJ). }
+    apply (join_pins K _ _ _ _ HJ). }
   rewrite Hall.
   assert (HinC : forall p, In p (keep xs (l_pins A) ++ keep ys (l_pins B)) ->
                            In p (l_pins A) \/ In p (l_pins B)).
@@ -312,7 +302,7 @@ Proof.
   pose proof (allpins_perm _ _ Hperm) as HP. unfold allpins in HP; simpl in HP. fold (allpins rest) in HP.
   assert (Hnd' : NoDup (l_pins A ++ l_pins B ++ allpins rest)).
   { eapply Permutation_NoDup; [exact HP | exact Hnd]. }
-  pose proof (join_pins _ _ _ _ HJ) as HCp.
+  pose proof (join_pins K _ _ _ _ HJ) as HCp.
   apply join_inv in HJ. cbv zeta in HJ.
   set (lk := links cs A B) in *. set (xs := map fst lk) in *. set (ys := map snd lk) in *.
   destruct HJ as (_ & Hndy & P & HP' & EC).
@@ -407,7 +397,7 @@ Proof.
         reflexivity.
     + (* untouched structures *)
       apply (Sem_ext L a b a' b').
-      * intros p Hp. assert (Hr : In p (allpins rest)) by (eapply allpins_In; eassumption).
+      * intros p Hp. assert (Hr : In p (allpins rest)) by (eapply (allpins_In K); eassumption).
         destruct (DisjR p Hr) as [NA NB].
         destruct (same p) as [-> ->]; [intros Hc; apply NA; auto | intros Hc; apply NB; auto |].
         split; reflexivity.
@@ -491,7 +481,7 @@ Theorem solve_complete (net : netlist K) sched T (u : waves K) :
   solve net sched = Ok T -> exists a b, wave_solution net u a b.
 Proof.
   intros H. apply (solve_inv K) in H. destruct H as (Hce & Hs & Hfree & Hnd & Hends).
-  set (cs := conns net) in *. set (live0 := map lst_of_comp (comps net)) in *.
+  set (cs := conns net) in *. set (live0 := comps net) in *.
   destruct (solve_sched_pins cs sched live0 [T] Hs Hnd) as (NT & _ & _).
   unfold allpins in NT; simpl in NT. rewrite app_nil_r in NT.
   set (n := length (l_pins T)).
@@ -504,10 +494,10 @@ Proof.
     exfalso. destruct (partner_None cs x (Hfree x Hx) _ Hin) as [Hc _]. apply Hc. reflexivity. }
   destruct (solve_sched_complete cs sched live0 [T] a0 b0 Hce Hnd Hs ST ET) as (a & b & S0 & E0 & A0).
   exists a, b. split; [|split].
-  - intros c Hc. apply S0. apply in_map. exact Hc.
+  - intros L HL. apply S0. exact HL.
   - intros x y Hin. destruct (In_conn_ends _ _ _ Hin) as [Hx Hy].
     apply E0; [exact Hin | apply Hends; exact Hx | apply Hends; exact Hy].
-  - intros x Hx. rewrite (A0 x Hx). reflexivity.
+  - intros x _ Hx. rewrite (A0 x Hx). reflexivity.
 Qed.
 
 (* the pins of the result are exactly the unconnected pins of the components *)
@@ -515,7 +505,7 @@ Theorem solve_pins (net : netlist K) sched T :
   solve net sched = Ok T ->
   NoDup (l_pins T) /\
   forall p, In p (l_pins T) <->
-            In p (allpins (map lst_of_comp (comps net))) /\ partner (conns net) p = None.
+            In p (allpins (comps net)) /\ partner (conns net) p = None.
 Proof.
   intros H. apply (solve_inv K) in H. destruct H as (Hce & Hs & Hfree & Hnd & Hends).
   destruct (solve_sched_pins _ sched _ [T] Hs Hnd) as (NT & Sub & Keep).
@@ -628,9 +618,10 @@ Proof.
   - intros x y Hin. destruct (HS' x y Hin) as [H|H].
     + apply E2. exact H.
     + destruct (E2 y x H). split; assumption.
-  - intros x Hx. unfold ext. rewrite <- (mem_ext (expo net) (expo net') x HE). apply E3.
-    apply partner_none_iff. intros [p q] Hc. destruct (HS p q Hc) as [H|H];
-      apply (partner_None _ _ Hx) in H; simpl in *; tauto.
+  - intros x Hin Hx. unfold ext. rewrite <- (mem_ext (expo net) (expo net') x HE). apply E3.
+    + eapply Permutation_in; [apply Permutation_sym; apply allpins_perm; exact HC | exact Hin].
+    + apply partner_none_iff. intros [p q] Hc. destruct (HS p q Hc) as [H|H];
+        apply (partner_None _ _ Hx) in H; simpl in *; tauto.
 Qed.
 
 Theorem declaration_independent (net net' : netlist K) s1 s2 T1 T2 :
